@@ -72,6 +72,36 @@ def sgDijkstra (adj : Array (List (Nat × Int))) (src : Nat) : Array (Option Int
         | some dy => if nd < dy then dist := dist.set! y (some nd)
   return dist
 
+/-- does SOME shortest `a → b` walk of the signed graph traverse an edge of `g` twice?  (`bidirectional_signed_dijkstra`
+discards such a walk: "duplicate edge, discard cycle"; a search that returns nothing although the target is
+reachable below the limit is legitimate only in this case.)  `dist` = the `a → b` distance. -/
+def sgShortestMayRepeat (g : Graph) (S hidden : List Nat) (a b : Nat) (dist : Int) : Bool := Id.run do
+  let n := g.n
+  let adj := sgAdjHidden g S hidden
+  let da := sgDijkstra adj a
+  let db := sgDijkstra adj b
+  let mut e := 0
+  for (u, w, c) in g.edges do
+    if u < n ∧ w < n ∧ !(hidden.contains e) then
+      let sg := S.contains e
+      -- the four oriented copies of `e` in the signed graph
+      let copies : List (Nat × Nat) := [true, false].flatMap fun s =>
+        let x := sgNode n u s
+        let y := sgNode n w (if sg then !s else s)
+        [(x, y), (y, x)]
+      for (u1, v1) in copies do
+        match da[u1]! with
+        | none => pure ()
+        | some d1 =>
+          if d1 + 2 * c ≤ dist then
+            let dm := sgDijkstra adj v1
+            for (u2, v2) in copies do
+              match dm[u2]!, db[v2]! with
+              | some d2, some d3 => if d1 + c + d2 + c + d3 == dist then return true
+              | _, _ => pure ()
+    e := e + 1
+  return false
+
 /-- min over `v` of dist(v+, v-) -/
 def minOddWeight (g : Graph) (S : List Nat) : Option Int := Id.run do
   let adj := sgAdj g S
